@@ -74,6 +74,8 @@ static const job JOBS[] = {
 	{ "critic-r", "f {++g++} {--h--} {==i==}{>>j<<}\n\n{--old\n\npara--} y\n", XD | EXT_CRITIC_REJECT, FORMAT_HTML, 0 },
 	{ "opml-in", "<?xml version=\"1.0\"?>\n<opml version=\"1.0\"><head><title>T</title></head><body><outline text=\"H &amp; x\" _note=\"n&#10;m\"><outline text=\"S\"/></outline></body></opml>\n", XD | EXT_PARSE_OPML, FORMAT_HTML, 0 },
 	{ "meta", "Title: T *x*\nAuthor: A\nlatex mode: memoir\n\nbody [%title]\n", XD | EXT_COMPLETE, FORMAT_LATEX, 0 },
+	{ "raw-a", "`xa`{=latex} and `ka`{=html} text ``la``{=*}\n\n```{=latex}\nblock a\n```\n", XD, FORMAT_HTML, 0 },
+	{ "raw-b", "`yb`{=epub|html} `zb`{=odt|latex|html} `wb`{=latex|odt}\n\n```{=html}\n<b>block b</b>\n```\n", XD, FORMAT_HTML, 0 },
 	{ "img-a", "![a](i.png width=300px height=200px) *x* [l](u \"t\")\n", XD, FORMAT_HTML, 0 },
 	{ "img-b", "![b][r] _y_ <http://q.r/>\n\n[r]: j.png width=40 height=50% class=c\n", XD, FORMAT_HTML, 0 },
 	/* two kitchen sinks that differ in every value (thorough) */
